@@ -172,7 +172,7 @@ func genStarOperand(rt *rapid.T) *Val {
 	case 10:
 		// integers of every kind at the edges of their range
 		return []*Val{{K: "uint64", I: -1}, {K: "uint64", I: -1000}, {K: "uint", I: -7}, {K: "uintptr", I: -1}, {K: "uint64", I: -9223372036854775808},
-			{K: "int64", I: 9223372036854775807}, {K: "int64", I: -9223372036854775808}, {K: "int32", I: -2147483648}, {K: "uint32", I: 4294967295}, {K: "nint", I: 3}}[rapid.IntRange(0, 9).Draw(rt, "staredge")]
+			{K: "int64", I: 9223372036854775807}, {K: "int64", I: -9223372036854775808}, {K: "int32", I: -2147483648}, {K: "uint32", I: 4294967295}, {K: "nint", I: 3}, {K: "nuint8", I: 6}, {K: "nuint8", I: 0}, {K: "nuint", I: 9}}[rapid.IntRange(0, 12).Draw(rt, "staredge")]
 	case 0:
 		return &Val{K: "int", I: int64(-rapid.IntRange(1, 12).Draw(rt, "sneg"))}
 	case 1:
@@ -191,7 +191,9 @@ func genStarOperand(rt *rapid.T) *Val {
 // chaotic format tokens
 var chaosTokens = []string{"%", "%", "%", "%%", "+", "-", "#", " ", "0", "1", "2", "9", "12", ".", "*", "[", "]", "[1]", "[2]", "[3]", "[0]", "[9]", "[1", "[x]",
 	"v", "s", "d", "q", "x", "X", "t", "b", "c", "o", "O", "U", "e", "E", "f", "F", "g", "G", "p", "T", "w", "z", "!",
-	"a", "lit ", "\n", startS, endS, "×", "é", "世", "\xe2", "\x80", "\xb9", "\xff", "%v", "%s", "%d", "%+v", "%#v", "%x", "%5s", "%-5d", "%.2f", "%*d", "%.*s", "%[2]v", "%[1]*d"}
+	"a", "lit ", "\n", startS, endS, "×", "é", "世", "\xe2", "\x80", "\xb9", "\xff", "%v", "%s", "%d", "%+v", "%#v", "%x", "%5s", "%-5d", "%.2f", "%*d", "%.*s", "%[2]v", "%[1]*d",
+	// argument indexes and numbers in unusual spellings
+	"[+1]", "[-1]", "[ 1]", "[01]", "[00000002]", "00000003", ".00000003", "0000000012", "%[+1]d", "%.00000002f", "%[1]*[+2]d"}
 
 // genIndexedDirective draws a directive with explicit argument indexes at
 // any of the three places fmt accepts them: before a '*' width, before a
